@@ -123,3 +123,44 @@ Qed.
 
 Print Assumptions host_fixed_ipv6.
 Print Assumptions host_fixed_opaque.
+
+(* ------------------------------------------------------------------------------------------ *)
+(* reportValidationErrors is irrelevant                                                         *)
+(* ------------------------------------------------------------------------------------------ *)
+From Verif Require Import Proofs.DiagBase Proofs.Diagnostics.
+
+Lemma with_report_self c : with_report c (c_report c) = c.
+Proof. destruct c. reflexivity. Qed.
+
+Lemma Inv_with_report c b u : Inv c u -> Inv (with_report c b) u.
+Proof. intros [H1 H2 H3 H4 H5 H6 H7 H8 H9 H10 H11 H12]. constructor; assumption. Qed.
+
+(* the round trip for a parser that records validation errors: the same components (the parse result may carry
+   validation errors, e.g. for a space in an opaque path) *)
+Theorem roundtrip_reporting idna_raw c u s :
+  cfg_rt (with_report c false) = true ->
+  Inv c u -> stable_b c u = true -> host_fixed idna_raw (with_report c false) u -> Href u false = Some s ->
+  exists u', Parse idna_raw c s = PUrl u' /\ same_components u' u.
+Proof.
+  intros Hc Hi Hst Hfix Hh.
+  pose proof (roundtrip_strong idna_raw (with_report c false) Hc u s (Inv_with_report c false u Hi)
+                (conj Hst Hfix) Hh) as Hp.
+  pose proof (Parse_report_neutral idna_raw c (c_report c) false s) as Hn.
+  rewrite with_report_self, Hp in Hn.
+  destruct (Parse idna_raw c s) as [u'| | | |]; try contradiction Hn.
+  exists u'. split; [reflexivity|]. unfold pres_eqv, eqv in Hn.
+  assert (E : forall (f : url -> url) , f (set_verrs u' []) = f (set_verrs (rt_url u s) [])) by (intros f; rewrite Hn; reflexivity).
+  unfold same_components. repeat split.
+  - apply (f_equal u_scheme Hn).
+  - apply (f_equal u_username Hn).
+  - apply (f_equal u_password Hn).
+  - apply (f_equal u_host Hn).
+  - apply (f_equal u_port Hn).
+  - apply (f_equal u_decodedPort Hn).
+  - apply (f_equal u_path Hn).
+  - apply (f_equal u_opaque Hn).
+  - apply (f_equal u_query Hn).
+  - apply (f_equal u_fragment Hn).
+Qed.
+
+Print Assumptions roundtrip_reporting.
